@@ -13,7 +13,8 @@ def run(R, ctx):
     execsuite.run_exec_suite(
         R, ctx, name="sorted-sets",
         gens=[(1, families.zset_reread(execgen_zset.zset_cmd))],
-        nprog=(100, 1500), corpus="exec_c12", keys=execgen_zset.ZKEYS, maxlen=60, extra_lines=extra + families.refused_changes_nothing(rng, 120 if quick else 2000),
+        nprog=(100, 1500), corpus="exec_c12", keys=execgen_zset.ZKEYS, maxlen=60, extra_lines=extra + families.refused_changes_nothing(rng, 120 if quick else 2000) +
+        families.large_container_programs(random.Random(R.seed * 131 + 12), 60 if quick else 1500, "zset"),
         what="sorted-set commands (ZADD with every NX/XX/GT/LT/CH/INCR combination incl. invalid ones, several pairs, duplicate members, "
              "ties, negatives, signed zero, infinities, huge and tiny floats, invalid floats; ZREM; ZRANGE by index with negative and "
              "out-of-range indexes, REV, WITHSCORES; ZRANK), interleaved with SET/EXPIRE/DEL/TYPE/TTL on the same keys; deep-tree programs "
